@@ -92,7 +92,7 @@ theorem Steps.fol {f : Frame} {s : List Frame} {inp rest : List Nat} {env : Env}
 def ObjGood (T : Tables) (C : Cfg) (ch : Choices) (o : Obj) : Prop :=
   ∀ (i : Nat) (x : Ectx) (s : List Frame) (inp rest : List Nat) (c : Nat) (r : List Nat) (g : Option TermB)
     (st st' : DState) (t : TermB) (qs : List QuadB),
-    Follows C rest c r → c ≠ 0x40 → c ≠ 0x5e → x.graph = g.map toT →
+    Follows C rest c r → c ≠ 0x40 → c ≠ 0x5e → x.subj.isSome = true → x.graph = g.map toT →
     dObj C.resolve g st o = some (t, qs, st') →
     SkEq C inp (pObj ⟨T, ch⟩ i o rest) →
     ∃ inp', SkEq C inp' rest ∧
@@ -106,7 +106,7 @@ theorem iriOf_pn (R : Resolver) (st : DState) (p l : List Nat) : iriOf R st (.pn
 include hT hT2 hC hch in
 theorem objGood_iri (x0 : IriS) (hwf : iriWf T x0 = true) (hnb : objNoBoolPfx (.iri x0) = true) :
     ObjGood T C ch (.iri x0) := by
-  intro i x s inp rest c r g st st' t qs hf h40 h5e hg hd hin
+  intro i x s inp rest c r g st st' t qs hf h40 h5e hxsome hg hd hin
   cases x0 with
   | ref rr =>
     simp only [dObj, Option.map_eq_some_iff] at hd
@@ -153,7 +153,7 @@ theorem objGood_iri (x0 : IriS) (hwf : iriWf T x0 = true) (hnb : objNoBoolPfx (.
 
 include hT hT2 hC hch in
 theorem objGood_bn (l : List Nat) (hwf : labelWf T l = true) : ObjGood T C ch (.bn l) := by
-  intro i x s inp rest c r g st st' t qs hf h40 h5e hg hd hin
+  intro i x s inp rest c r g st st' t qs hf h40 h5e hxsome hg hd hin
   simp only [dObj, Option.some.injEq, Prod.mk.injEq] at hd
   obtain ⟨rfl, rfl, rfl⟩ := hd
   simp only [labelWf, Bool.and_eq_true] at hwf
@@ -162,13 +162,13 @@ theorem objGood_bn (l : List Nat) (hwf : labelWf T l = true) : ObjGood T C ch (.
   refine ⟨_, hA, ?_⟩
   have := Steps.tok hT2 hC (f := ⟨x, .object⟩) (s := s) (env := envOf st) hin
     (show pObj ⟨T, ch⟩ i (.bn l) rest = 0x5f :: (0x3a :: l ++ after T .label (ch.at i) rest) by simp [pObj, pBNode])
-    (solid_pn (hT2.u_sub 0x5f hT2.us)) (by decide)
+    (solid_pn (hT2.u_sub 0x5f hT2.us) (by decide)) (by decide)
     (fn_object_bnode hT hC x (envOf st) l _ (scalars_of_B hwf.1) hwf.2 hcl) (Steps.refl _)
   simpa [toT, Term.map, toBN] using this
 
 include hT hT2 hC hch in
 theorem objGood_anon : ObjGood T C ch .anon := by
-  intro i x s inp rest c r g st st' t qs hf h40 h5e hg hd hin
+  intro i x s inp rest c r g st st' t qs hf h40 h5e hxsome hg hd hin
   simp only [dObj, Option.some.injEq, Prod.mk.injEq] at hd
   obtain ⟨rfl, rfl, rfl⟩ := hd
   have hA1 := after_skip (T := T) hC .punct (ch.at i) (slot_ok hch i) (0x5d :: after T .punct (ch.at (i + 1)) rest)
@@ -196,7 +196,7 @@ theorem objGood_anon : ObjGood T C ch .anon := by
 
 include hT hT2 hC hch in
 theorem objGood_nil : ObjGood T C ch (.coll []) := by
-  intro i x s inp rest c r g st st' t qs hf h40 h5e hg hd hin
+  intro i x s inp rest c r g st st' t qs hf h40 h5e hxsome hg hd hin
   simp only [dObj, Option.some.injEq, Prod.mk.injEq] at hd
   obtain ⟨rfl, rfl, rfl⟩ := hd
   have hA1 := after_skip (T := T) hC .punct (ch.at i) (slot_ok hch i) (0x29 :: after T .punct (ch.at (i + 1)) rest)
@@ -223,7 +223,7 @@ theorem rdfType_eq : TA.rdfType = TtlDoc.rdfType := rfl
 
 include hT hT2 hC hch in
 theorem objGood_lit (l : Lit) (hwf : litWf T l = true) : ObjGood T C ch (.lit l) := by
-  intro i x s inp rest c r g st st' t qs hf h40 h5e hg hd hin
+  intro i x s inp rest c r g st st' t qs hf h40 h5e hxsome hg hd hin
   simp only [dObj, Option.map_eq_some_iff] at hd
   obtain ⟨tt, htt, heq⟩ := hd
   simp only [Prod.mk.injEq] at heq
@@ -341,8 +341,8 @@ theorem objGood_lit (l : Lit) (hwf : litWf T l = true) : ObjGood T C ch (.lit l)
           rcases hcls with (h | h | h) | ⟨h, _⟩
           · subst h; exact ⟨solid_delim (by decide) (by decide), by decide⟩
           · subst h
-            exact ⟨solid_pn hT2.minus, by decide⟩
-          · exact ⟨solid_pn (hT.pn_digit c0 h), fun hh => by subst hh; simp [isDigit, NQ.isDigit] at h⟩
+            exact ⟨solid_pn hT2.minus (by decide), by decide⟩
+          · exact ⟨solid_pn (hT.pn_digit c0 h) (by simp [isDigit, NQ.isDigit] at h; omega), fun hh => by subst hh; simp [isDigit, NQ.isDigit] at h⟩
           · subst h; exact ⟨solid_delim (by decide) (by decide), by decide⟩
         have := Steps.tok hT2 hC (f := ⟨x, .object⟩) (s := s) (env := envOf st) hin
           (show pObj ⟨T, ch⟩ i (.lit (.num lex)) rest = c0 :: (lt ++ after T .num (ch.at i) rest) by simp [pObj, pLit, hlex])
@@ -361,7 +361,7 @@ theorem objGood_lit (l : Lit) (hwf : litWf T l = true) : ObjGood T C ch (.lit l)
     have hpn := pnB_pn hT2 (hT2.alpha c0 hal)
     have := Steps.tok hT2 hC (f := ⟨x, .object⟩) (s := s) (env := envOf st) hin
       (show pObj ⟨T, ch⟩ i (.lit (.bool b)) rest = c0 :: tl0 by simp [pObj, pLit, htext])
-      (solid_pn hpn) (fun hh => by subst hh; simp [isAlpha, NQ.isAlpha] at hal)
+      (solid_pn hpn (by simp [isAlpha, NQ.isAlpha] at hal; omega)) (fun hh => by subst hh; simp [isAlpha, NQ.isAlpha] at hal)
       (fn_object_bool hC x (envOf st) b _ c0 tl0 htext) (Steps.refl _)
     simpa [toT, Term.map, boolText] using this
 
@@ -421,7 +421,7 @@ theorem objsGood (os : List Obj) (h : ∀ o ∈ os, ObjGood T C ch o) : ObjsGood
         | nil =>
           simp only [dObjs, Option.some.injEq, Prod.mk.injEq] at hdr
           obtain ⟨rfl, rfl⟩ := hdr
-          obtain ⟨inp1, he1, s1⟩ := hgo i x (⟨x, .objListContinue⟩ :: s) inp rest c r g st st1 t qs1 hf h40 h5e hg hdo
+          obtain ⟨inp1, he1, s1⟩ := hgo i x (⟨x, .objListContinue⟩ :: s) inp rest c r g st st1 t qs1 hf h40 h5e (by simp [hs]) hg hdo
             (by simpa [pObjs] using hin)
           refine ⟨c :: r, by rw [hf.1]; exact SkEq.rfl', ?_⟩
           have s2 := Steps.fol hT2 hC (f := ⟨x, .objListContinue⟩) (s := s) (env := envOf st1) he1 hf
@@ -433,7 +433,7 @@ theorem objsGood (os : List Obj) (h : ∀ o ∈ os, ObjGood T C ch o) : ObjsGood
               (after T .punct (ch.at (i + objSlots o)) (pObjs ⟨T, ch⟩ (i + objSlots o + 1) (o' :: os') rest)) :=
             follows_solid hT2 hC (solid_delim (by decide) (by decide)) (by decide) _
           obtain ⟨inp1, he1, s1⟩ := hgo i x (⟨x, .objListContinue⟩ :: s) inp _ 0x2c _ g st st1 t qs1 hfc (by decide) (by decide)
-            hg hdo (by simpa [pObjs] using hin)
+            (by simp [hs]) hg hdo (by simpa [pObjs] using hin)
           obtain ⟨inp2, he2, s3⟩ := ih (fun o2 ho2 => h o2 (List.mem_cons_of_mem _ ho2)) (i + objSlots o + 1) x s
             (after T .punct (ch.at (i + objSlots o)) (pObjs ⟨T, ch⟩ (i + objSlots o + 1) (o' :: os') rest)) rest c r g st1 st2 qs2
             sS pP hf h40 h5e h2c hs hp hg (by simp) hdr (after_skip hC .punct _ (slot_ok hch _) _)
@@ -468,11 +468,8 @@ theorem semis_more (x : Ectx) (s : List Frame) (env : Env) (j : Nat) (R : List N
   | succ k ih =>
     intro inp hin
     obtain ⟨tl, htl⟩ := semis_head ⟨T, ch⟩ j k R
-    have hsl := slot_ok hch j
-    have hl2 : (ch.at j).lay2.all itemLf = true := by
-      simp only [slotOK, Bool.and_eq_true] at hsl; exact hsl.2
     have hsk : SkEq C (renderLay false (ch.at j).lay2 ++ semis ⟨T, ch⟩ j (k + 1) R) (semis ⟨T, ch⟩ j (k + 1) R) :=
-      renderLay_skip_false hC _ hl2 _
+      renderLay_skip_false hC _ _
     have hfs : Follows C (semis ⟨T, ch⟩ j (k + 1) R) 0x3b tl := by
       rw [htl]; exact follows_solid hT2 hC (solid_delim (by decide) (by decide)) (by decide) tl
     obtain ⟨inp', he, s3⟩ := ih (0x3b :: tl) (by rw [htl]; exact SkEq.rfl')
@@ -523,7 +520,7 @@ theorem verb_step (v : Verb) (hwf : verbWf T v = true) (req : Bool) (x : Ectx) (
       have hfn := (fn_pol_of x (envOf st) 0x61 (w :: tl) _ tl req (stepPOL_a hC x (envOf st) w tl hw)).trans (polGo_eq _ _ _ _)
       have := Steps.tok hT2 hC (f := ⟨x, if req then .polRequired else .pol⟩) (s := s) (env := envOf st) hin
         (show pVerb ⟨T, ch⟩ i .a R = 0x61 :: (w :: tl) by simp [pVerb, hform])
-        (solid_pn (pnB_pn hT2 (hT2.alpha 0x61 (by decide)))) (by decide) hfn (Steps.refl _)
+        (solid_pn (pnB_pn hT2 (hT2.alpha 0x61 (by decide))) (by decide)) (by decide) hfn (Steps.refl _)
       simpa [toT, Term.map, rdfType_eq] using this
     · cases hlt
   | iri x0 =>
